@@ -127,3 +127,30 @@ def shipped(case, note):
     lines = guard('C14.decode', ilog().parse_ilog_data, memoryview(case['data']), D.shipped(case['file']))
     compare(lines, entries, case['data'])
     classify(entries, case['data'], note)
+
+
+# ---------------------------------------------------------------------------
+# coverage-guided bytes (atheris), thorough tier
+# ---------------------------------------------------------------------------
+
+@PROP.custom('coverage-guided')
+def coverage_guided(ctx):
+    from .. import fuzz
+    from ..core import FacetResult
+    if ctx.tier == 'quick':
+        r = FacetResult('coverage-guided')
+        r.notes.append('coverage-guided campaign runs in the thorough tier only')
+        return r
+    table = shipped_table('mex_pte.h')
+    corpus = []
+    for e in table[:40]:
+        pte = int(e['pattern'].replace('*', '1'), 16) if len(e['pattern']) == 8 else 0
+        corpus.append(b'\x12\x34\x00\x01' + pte.to_bytes(4, 'big'))
+    return fuzz.campaign('coverage-guided', 'ilog', corpus, runs=300000, seed=ctx.seed, jobs=4, max_len=256,
+                         sig_prefix='C14.fuzz')
+
+
+def replay_coverage_guided(case):
+    data = case['data']
+    lines = guard('C14.decode', ilog().parse_ilog_data, memoryview(data), D.shipped('mex_pte.h'))
+    compare(lines, shipped_table('mex_pte.h'), data)
